@@ -1,6 +1,6 @@
 (* Proofs/C19_proofs.v -- the capability gating of verif.driver.run (GENERATED: Gen/Gen_caps.v). *)
 From Coq Require Import String List Bool.
-From VF Require Import Gen.Gen_caps.
+From VF Require Import Gen.Gen_caps Model.Gate.
 Import ListNotations.
 Local Open Scope string_scope.
 
@@ -130,3 +130,16 @@ Proof.
   intros H. pose proof all_rtt_known_ok as A. unfold all_rtt_known in A.
   apply andb_true_iff in A. destruct A as [_ A]. rewrite forallb_forall in A. apply A; exact H.
 Qed.
+
+(* ---- output-type dispatch (GENERATED tables) ---------------------------------------------------------- *)
+Definition standard_supports_all_types : bool :=
+  forallb (fun n => match find_output n with
+                    | Some o => forallb (fun ty => smem (core_of ty) (oc_methods o)) plot_types
+                    | None => false end) ["Standard"].
+Definition every_diagram_plots : bool :=
+  forallb (fun d => match find_output (snd d) with Some o => smem "_plot_core" (oc_methods o) | None => false end) diagram_chain.
+Definition every_type_has_a_core : bool :=
+  forallb (fun ty => smem (core_of ty) ["_plot_core"; "_map_core"; "_plot_rank_core"; "_plot_impact_core"; "_plot_mapimpact_core"; "_get_x_y"]) plot_types.
+Lemma standard_supports_all_types_ok : standard_supports_all_types = true. Proof. vm_compute. reflexivity. Qed.
+Lemma every_diagram_plots_ok : every_diagram_plots = true. Proof. vm_compute. reflexivity. Qed.
+Lemma every_type_has_a_core_ok : every_type_has_a_core = true. Proof. vm_compute. reflexivity. Qed.
